@@ -30,6 +30,14 @@ CLAIMED = {
           "Seeded histories of all op kinds incl. reorg + regrowth and all commit schedules; after every finalise the newest blocks and at the end all heights are checked against independently recomputed blooms, merkle roots, sums and RLP decodings and against the receipts the indexer was handed. Sampling, not proof.",
           "Two understood hash-collision situations are recorded as known findings and their by-hash checks are skipped for the colliding transactions only.",
           "DESIGN.md 4 C06"),
+  "C07": ("exploration", "deterministic simulation against a reference ledger model (plain maps over u256) across reorgs, commits, clearCaches and restarts",
+          "Seeded interleavings of deposits, withdrawals, controller/token transfers, approvals, transferFroms and hostile mint/burn calls by pkscript senders, signers and user contracts; the ledger is updated from the inputs of operations that reported success and compared at every block boundary with brc20_balance (all case variants), balanceOf of every known holder and totalSupply. Sampling, not proof.",
+          "Allowance sufficiency is not modelled; holders universe is the fixed identity pool plus deployed contracts (leaks elsewhere show up as supply != sum).",
+          "DESIGN.md 4 C07"),
+  "C08": ("exploration", "deterministic simulation: faulty channel of signed transactions (reorder, duplicate, delay, loss, replacement) against a reference pending-pool model",
+          "Seeded arrival orders of signed transactions of 3 signers with gaps, duplicates, stale / far-future / wrong-chain transactions, idle gaps and reorgs, plus window-edge scenarios (1-3 parked nonces, every arrival order, ages 8..12); the model predicts receipts per call, nonces, indexes, account nonce and the txpool view. Sampling, with a small enumerated corner.",
+          "Replacement of a waiting nonce modelled as last-wins; entries expiring on the neighbouring block may or may not be listed by txpool_content.",
+          "DESIGN.md 4 C08"),
   "C10": ("exploration", "deterministic simulation: read requests injected at every boundary / mid-block, before/after observation, twin without reads, on-disk comparison after commit",
           "Seeded histories with executing reads running state-mutating bytecode (eth_call, eth_callMany with carry-over/overrides, estimateGas(Many), brc20_balance) and getters; oracles: observation unchanged by each read, equality with a twin that never reads, and key-by-key equality of all RocksDB directories after a final commit. Sampling, not proof.",
           "mineTimestamp masked in stored block rows.",
